@@ -6,9 +6,14 @@
 package main
 
 import (
+	"bytes"
+	"crypto/sha256"
+	"encoding/hex"
+	"encoding/json"
 	"flag"
 	"fmt"
 	"go/ast"
+	"go/printer"
 	"go/constant"
 	"go/importer"
 	"go/parser"
@@ -37,6 +42,7 @@ func fail(format string, a ...interface{}) string {
 func main() {
 	repo := flag.String("repo", "/repo", "repository root")
 	out := flag.String("out", ".", "output directory")
+	fpOut := flag.String("fingerprints", "", "also write a structural fingerprint of every top-level declaration to this JSON file")
 	flag.Parse()
 	matches, _ := filepath.Glob(filepath.Join(*repo, "*.go"))
 	sort.Strings(matches)
@@ -45,7 +51,7 @@ func main() {
 		if strings.HasSuffix(m, "_test.go") {
 			continue
 		}
-		f, err := parser.ParseFile(fset, m, nil, parser.SkipObjectResolution)
+		f, err := parser.ParseFile(fset, m, nil, parser.SkipObjectResolution|parser.ParseComments)
 		if err != nil {
 			fmt.Println("parse:", err)
 			os.Exit(1)
@@ -80,6 +86,9 @@ func main() {
 			}
 		}
 	}
+	if *fpOut != "" {
+		writeFingerprints(*fpOut, files)
+	}
 	os.MkdirAll(*out, 0o755)
 	writeFile(filepath.Join(*out, "Consts.lean"), genConsts())
 	for _, g := range leafGroups {
@@ -91,6 +100,56 @@ func main() {
 		}
 		os.Exit(1)
 	}
+}
+
+// writeFingerprints records, for every top-level declaration of the non-test, non-hook source, a hash of its
+// syntax tree printed without comments: the hand-written Lean model was validated against exactly this text of
+// each function; a declaration that changes (or appears, or disappears) is reported by the checks of the
+// properties it bears on, which then widen their search (tools/fingerprints.py holds the map and the expectations).
+func writeFingerprints(path string, files []*ast.File) {
+	fp := map[string]string{}
+	hash := func(n ast.Node) string {
+		var buf bytes.Buffer
+		// a node printed on its own carries no comments (they belong to the *ast.File)
+		if err := (&printer.Config{Mode: printer.RawFormat, Tabwidth: 1}).Fprint(&buf, token.NewFileSet(), n); err != nil {
+			return "unprintable:" + err.Error()
+		}
+		h := sha256.Sum256(buf.Bytes())
+		return hex.EncodeToString(h[:8])
+	}
+	for _, f := range files {
+		for _, d := range f.Decls {
+			switch d := d.(type) {
+			case *ast.FuncDecl:
+				c := *d
+				c.Doc = nil
+				k := funcKey(d)
+				for i := 2; fp[k] != ""; i++ { // several func init()
+					k = fmt.Sprintf("%s#%d", funcKey(d), i)
+				}
+				fp[k] = hash(&c)
+			case *ast.GenDecl:
+				for _, sp := range d.Specs {
+					switch sp := sp.(type) {
+					case *ast.ValueSpec:
+						c := *sp
+						c.Doc, c.Comment = nil, nil
+						for _, n := range sp.Names {
+							if n.Name != "_" {
+								fp[strings.ToLower(d.Tok.String())+":"+n.Name] = hash(&c)
+							}
+						}
+					case *ast.TypeSpec:
+						c := *sp
+						c.Doc, c.Comment = nil, nil
+						fp["type:"+sp.Name.Name] = hash(&c)
+					}
+				}
+			}
+		}
+	}
+	b, _ := json.MarshalIndent(fp, "", " ")
+	writeFile(path, string(b)+"\n")
 }
 
 func writeFile(p, s string) {
